@@ -36,6 +36,8 @@ type rawReq struct {
 	wantFields []int16
 	replies    [][]byte
 	sent       bool
+	limit      string // HTTP only: x-frugal-payload-limit value ("" = none)
+	got413     bool
 }
 
 func init() { Register("server", serverHarness) }
@@ -143,6 +145,16 @@ func serverHarness(rc *RunCtx) {
 			mt = thrift.ONEWAY
 		}
 		msg := rawMessage(env.proto, p.method, mt, fields)
+		if r.kind == "valid" && !p.oneway && setting != "simple" && setting != "shared" && tp.Intn("req", 6) == 0 {
+			// well-formed arguments followed by bytes the decoder never reads: with per-message
+			// buffers they must simply be dropped with the message
+			msg = append(msg, []byte(genString(tp, "req", 6)+"\x00\xff\x7f")...)
+			rc.Fault("trailing-bytes-after-arguments")
+		}
+		if setting == "http" && tp.Intn("req", 5) == 0 {
+			r.limit = []string{"10", "1000000"}[tp.Intn("req", 2)]
+			rc.Fault("http-payload-limit-header")
+		}
 		if r.kind == "malformed" {
 			// cut inside the argument struct: the message begin (method name) stays intact
 			empty := rawMessage(env.proto, p.method, mt, nil)
@@ -312,9 +324,16 @@ func serverHarness(rc *RunCtx) {
 						body := base64.StdEncoding.EncodeToString(r.frame)
 						req := httptest.NewRequest("POST", "http://sim/frugal", strings.NewReader(body))
 						req.Header.Set("content-transfer-encoding", "base64")
+						if r.limit != "" {
+							req.Header.Set("x-frugal-payload-limit", r.limit)
+						}
 						rec := httptest.NewRecorder()
 						simrt.Pre(siteD)
 						h(rec, req)
+						if rec.Code == 413 && r.limit == "10" && r.kind != "oneway" {
+							r.got413 = true
+							continue
+						}
 						if rec.Code != 200 {
 							if r.kind != "malformed" {
 								rc.Violate("C14", "http-error-status", key, fmt.Sprintf("request %s (%s %s/%s): status %d %s", r.opid, r.kind, r.method, r.outcome, rec.Code, rec.Body.String()))
@@ -391,6 +410,12 @@ func serverHarness(rc *RunCtx) {
 			}
 			if r.kind == "malformed" && (setting == "http") {
 				continue // reported as an HTTP error status or a PROTOCOL_ERROR reply; both are "rejected with an error"
+			}
+			if r.limit == "10" {
+				if !r.got413 || len(r.replies) != 0 {
+					rc.Violate("C14", "http-reply-over-requested-limit-not-413", key, fmt.Sprintf("%s: requested limit 10, got413=%v replies=%d", where, r.got413, len(r.replies)))
+				}
+				continue
 			}
 			if len(r.replies) != 1 {
 				rc.Violate("C14", "reply-count", key+" "+r.kind, fmt.Sprintf("%s: %d replies", where, len(r.replies)))
